@@ -14,7 +14,8 @@ static rc::Gen<Case> case_gen() {
         int n = *range<int>(1, 24);
         auto steps = *rc::gen::resize(n, rc::gen::container<std::vector<Op>>(rc::gen::exec([=] {
             Op o;
-            int k = *range<int>(0, 9);
+            int k = *range<int>(0, 10);
+            if (k == 10) { o.kind = 12; o.a = {*bnd({26, 27, 28, 72, 73, 74, 75, 147, 459, 460}, 0, 500, 3, 1), *range<int64_t>(0, 1000), *pick({0, 1, 1})}; return o; }
             if (k == 0) { o.kind = 10; return o; }
             if (k == 1) { o.kind = 11; o.a = {*bnd({0, 1, 999, 1000, 30000, 31000, 61000, 120000}, 0, 120000, 1, 1)}; return o; }
             o.kind = 9;
